@@ -226,7 +226,7 @@ def run(ctx):
     ctx.assumptions += sc.ASSUME
     sc.run_families(ctx, scenarios(ctx), "second-caller")
     sc.run_families(ctx, fe_scenarios(ctx), "frontend-second")
-    sc.run_families(ctx, forced.scenarios('c10', ('double-reset', 'late-release')), "forced-schedule")
+    sc.run_families(ctx, forced.scenarios('c10', ('double-reset', 'late-release', 'final-release')), "forced-schedule")
     ctx.coverage["exhaustive"] = False
 
 
